@@ -583,6 +583,17 @@ def blocks_keep_identity(ctx: Ctx, rep: Report, rid: str = "R16.18") -> None:
     # where the identity of the existing blocks is read
     reads_uuid = any(isinstance(x, ast.Attribute) and x.attr == "uuid" and isinstance(x.ctx, ast.Load) and src(x.value) != "self" for x in own_nodes(f.node))
     reads_note = any(isinstance(x, ast.Attribute) and x.attr == "note" and isinstance(x.ctx, ast.Load) and src(x.value) != "self" for x in own_nodes(f.node))
+    # the identity of EVERY existing block is collected: the statement that reads `<block>.uuid` depends on nothing but
+    # the block being a block (an unnamed leading block has an identity too)
+    cfg = ctx.cfg(f)
+    for nd in cfg.live:
+        if nd.kind == "stmt" and nd.ast is not None and any(isinstance(x, ast.Attribute) and x.attr == "uuid" and isinstance(x.ctx, ast.Load) and src(x.value) != "self" for x in ast.walk(nd.ast)):
+            extra = [c_ for c_, _lab in cfg.transitive_control_deps(nd) if c_.kind == "cond" and not (isinstance(c_.ast, ast.Call) and src(c_.ast.func) == "isinstance") and not (isinstance(c_.ast, ast.Name) and c_.ast.id in f.params) and not (isinstance(c_.ast, ast.UnaryOp) and isinstance(c_.ast.operand, ast.Name) and c_.ast.operand.id in f.params)]
+            rep.instance()
+            if extra:
+                rep.violation("Acl.group", f"{snippet(nd.ast, 50)} under {snippet(extra[0].ast, 30)}", "the identity of an existing block is collected only under a further condition: a block for which it does not hold (the unnamed block in front of the first heading) gets a fresh identifier and an empty note on every regroup", where(f, nd.ast), inp="grouped ACL with entries before the first heading; acl.items[0].note = 'N'; acl.port_nr = True")
+            else:
+                rep.ok(f"Acl.group: {snippet(nd.ast, 50)}", "for every existing block", where=where(f, nd.ast))
     for c in ctors:
         kws = {k.arg for k in c.keywords}
         explicit = {"uuid", "note"} <= kws
@@ -616,6 +627,43 @@ def dicts_rebuilt_whole(ctx: Ctx, rep: Report, rid: str = "R16.19") -> None:
                     else:
                         rep.violation(q, snippet(c, 70), f"the member is rebuilt from a part of its exported data, not from **{var}: what the part leaves out (members of a nested group, note, number) is lost on every copy, re-initialisation and platform change", where(f, c), inp="an address group that has a member which is itself a group; platform change")
     rep.floor(2, "dict branches of the items builders") if n else None
+
+
+def exporter_reads_own_settings(ctx: Ctx, rep: Report, rid: str = "R16.20") -> None:
+    """A constructor option that the object keeps in an attribute of the same name is exported from THAT attribute: the
+    value `data()` gives for key k mentions `self.k` / `self._k` (an option re-derived from somewhere else - the limit of
+    the nested wildcard, a default when there is none - is another value for objects that have no such part)."""
+    rep.rule(rid)
+    n = 0
+    for cn in DATA_CLASSES:
+        cls = ctx.prog.classes.get(cn)
+        if cls is None:
+            continue
+        ex = exported(ctx, cls)
+        df = cls.lookup_method("data")
+        attrs = set()
+        for c in cls.mro:
+            for g in c.all_funcs():
+                for x in own_nodes(g.node):
+                    if isinstance(x, ast.Attribute) and isinstance(x.ctx, ast.Store) and src(x.value) == "self":
+                        attrs.add(x.attr)
+        from .common import single_env
+
+        env = single_env(df.node) if df is not None else {}
+        for k in ("max_ncwb", "platform", "version", "note", "protocol_nr", "port_nr", "group_by", "indent", "name", "type"):
+            if k not in ex or not ({k, "_" + k} & attrs):
+                continue
+            n += 1
+            rep.instance()
+            v = ex[k]
+            if isinstance(v, ast.Name) and v.id in env:
+                v = env[v.id]
+            reads = {x.attr for x in ast.walk(v) if isinstance(x, ast.Attribute) and src(x.value) == "self"}
+            if {k, "_" + k} & reads:
+                rep.ok(f"{cn}.data(): {k}", f"exports self.{k}", nontrivial=False, where=where(df))
+            else:
+                rep.violation(df.qualname if df else cn, f"{k}={snippet(ex[k], 50)}", f"{cn}.data() exports {k!r} from something other than the attribute the constructor stores it in: for objects where the two differ (an address of type group has no wildcard) copy() and every re-initialisation change the setting", where(df, ex[k]) if df else "", inp=f"{cn}(..., {k}=<non-default>).copy().{k}")
+    rep.floor(10, "exported settings that the object stores") if n else None
 
 
 def dict_builders_pass_everything(ctx: Ctx, rep: Report, rid: str = "R16.14", factories: bool = False) -> None:
@@ -781,6 +829,7 @@ def run(ctx: Ctx, rep: Report, tier: str) -> None:
     objects_adopted_once(ctx, rep)
     dicts_rebuilt_whole(ctx, rep)
     blocks_keep_identity(ctx, rep)
+    exporter_reads_own_settings(ctx, rep)
     # R16.17 the list operations of a container work on the list in place (C15 R15.10): an operation that goes through the
     # items setter re-groups a grouped ACL and so replaces its blocks
     from .c15 import list_api_forwarding, r15_4
